@@ -42,7 +42,7 @@ COMPONENTS = {
     "real": ["EnsembleEvaluator RNG handling", "SciPySampler (all methods)", "PluginManager (cached entry-point plug-ins)", "plan / steps", "scipy.optimize incl. differential_evolution (50% of runs)"],
     "stub": ["cooperative scheduler (baton-passing threads)", "SimEvaluator", "sim/scripted optimizer"],
 }
-PROBES = ["same_step_run_twice", "reused_config_object_runs", "fresh_interpreter_other_hashseed", "interleaved_runs", "switches", "gradient_evaluations", "builtin_sampler_runs", "de_runs", "real_scipy_runs",
+PROBES = ["same_step_run_twice", "generator_object_in_reused_config", "reused_config_object_runs", "fresh_interpreter_other_hashseed", "interleaved_runs", "switches", "gradient_evaluations", "builtin_sampler_runs", "de_runs", "real_scipy_runs",
           "reused_manager_runs", "seed_change_checked", "companions", "global_rng_draws_in_evaluator"]
 METHODS = ["uniform", "norm", "truncnorm", "sobol", "halton", "lhs"]
 REAL = ["slsqp", "l-bfgs-b", "nelder-mead", "cobyla"]
@@ -82,6 +82,10 @@ def _scenario(rng: random.Random, method_hint: int | None = None) -> dict:
         cfg["optimizer"] = {"method": "differential_evolution", "options": {"maxiter": 1, "popsize": 2, "seed": rng.choice([0, 0, rng.randint(1, 999)]), "tol": 0.5}}
         if rng.random() < 0.5:
             cfg["optimizer"]["parallel"] = True
+        if rng.random() < 0.4:
+            # the seed given as a seeded numpy Generator object (state carried by an object inside the configuration)
+            cfg["optimizer"]["options"]["seed"] = {"__rng__": rng.randint(0, 999)}
+            scn["de_seed_is_generator_object"] = True
     elif backend != "scripted":
         cfg["optimizer"] = {"method": backend, "options": {"maxiter": rng.randint(1, 3)}, "tolerance": 1e-3}
         if cfg.get("nonlinear_constraints") and backend == "cobyla":
@@ -184,6 +188,8 @@ def execute(scn: dict) -> dict:
     np.random.random(2)
     second = _run_solo(A, sh2)
     probe("reused_config_object_runs")
+    if A.get("de_seed_is_generator_object"):
+        probe("generator_object_in_reused_config")
     for label, run in (("first", first), ("second", second)):
         dd = harness.trace_digest(run)
         if dd != d1:
